@@ -14,6 +14,7 @@ CONSTANTS
   Hyp_IdResetPerModel = FALSE
   Hyp_SharedFunctions = FALSE
   Hyp_RhsCachedByName = FALSE
+  Hyp_SteadyOneShot = FALSE
 INVARIANT TypeOK
 INVARIANT C17_HistoryIndependent
 INVARIANT C17_ReparseClean
